@@ -140,6 +140,10 @@ fn build_compare_op(
         CompareOp::Ord => build_ord_body(source, use_bounds, &mut wcb)?,
         CompareOp::Hash => build_hash_body(source, use_bounds, &mut wcb)?,
     };
+    if op == CompareOp::Eq {
+        // `bound(...)` and field types can mention `Self` as well.
+        wcb.expand_self(&this_ty);
+    }
     let wheres = wcb.build(|ty| quote!(#ty : #trait_));
     let (body, checker) = match op {
         CompareOp::PartialEq | CompareOp::PartialOrd | CompareOp::Ord | CompareOp::Hash => {
